@@ -72,22 +72,22 @@ where
         } else {
             let last = self.l0s.len() - 1;
             self.l0s.push_back(
-                (T::one() - self.gamma) * val + self.gamma * *self.l0s.get(last - 1).unwrap(),
+                (T::one() - self.gamma) * val + self.gamma * *self.l0s.get(last).unwrap(),
             );
             self.l1s.push_back(
-                -self.gamma * *self.l0s.get(last).unwrap()
-                    + *self.l0s.get(last - 1).unwrap()
-                    + self.gamma * *self.l1s.get(last - 1).unwrap(),
+                -self.gamma * *self.l0s.get(last + 1).unwrap()
+                    + *self.l0s.get(last).unwrap()
+                    + self.gamma * *self.l1s.get(last).unwrap(),
             );
             self.l2s.push_back(
-                -self.gamma * *self.l1s.get(last).unwrap()
-                    + *self.l1s.get(last - 1).unwrap()
-                    + self.gamma * *self.l2s.get(last - 1).unwrap(),
+                -self.gamma * *self.l1s.get(last + 1).unwrap()
+                    + *self.l1s.get(last).unwrap()
+                    + self.gamma * *self.l2s.get(last).unwrap(),
             );
             self.l3s.push_back(
-                -self.gamma * *self.l2s.get(last).unwrap()
-                    + *self.l2s.get(last - 1).unwrap()
-                    + self.gamma * *self.l3s.get(last - 1).unwrap(),
+                -self.gamma * *self.l2s.get(last + 1).unwrap()
+                    + *self.l2s.get(last).unwrap()
+                    + self.gamma * *self.l3s.get(last).unwrap(),
             );
         }
         let last = self.l0s.len() - 1;
